@@ -129,6 +129,14 @@ SetValue(r, v, p) ==
                  ELSE [r |-> [v |-> v, p |-> p], fail |-> FALSE]
        ELSE [r |-> [v |-> v, p |-> p], fail |-> FALSE]
 
+\* A field block can be linked by several composite blocks (an identical register write on the same field heads made on
+\* two nodes is one block). mergeProcessor.processBlock skips a field block that is already a head of its field or an
+\* ancestor of one (isFieldBlockMerged); as coded at the pinned commit it was processed again and became a head although
+\* later blocks of the field name it as parent.
+RECURSIVE FBAnc(_, _)
+FBAnc(f, b) == {b} \cup UNION {FBAnc(f, p) : p \in fpar[b][f]}
+FMerged(f, H, b) == \E h \in H : b \in FBAnc(f, h)
+
 \* node store as one record, applying one composite block c (processBlock)
 Store(n) == [hd |-> hd[n], fhd |-> fhd[n], ctr |-> ctr[n], reg |-> reg[n], del |-> del[n], fail |-> FALSE]
 ApplyBlockC(s, c, parc, fparc, cwc, rwc, fhtc, kindc, fidc) ==
@@ -136,7 +144,8 @@ ApplyBlockC(s, c, parc, fparc, cwc, rwc, fhtc, kindc, fidc) ==
                                  ELSE SetValue(s.reg[f], rwc[f], fhtc[f])]
       wrote(f) == IF f \in Ctrs THEN cwc[f] # NoW ELSE rwc[f] # NoW
   IN [hd  |-> UpdHeads(s.hd, c, parc),
-      fhd |-> [f \in Fields |-> IF wrote(f) THEN UpdHeads(s.fhd[f], fidc[f], fparc[f]) ELSE s.fhd[f]],
+      fhd |-> [f \in Fields |-> IF wrote(f) /\ ~(Variant = "repaired" /\ FMerged(f, s.fhd[f], fidc[f]))
+                                 THEN UpdHeads(s.fhd[f], fidc[f], fparc[f]) ELSE s.fhd[f]],
       ctr |-> [f \in Ctrs |-> IF cwc[f] = NoW THEN s.ctr[f] ELSE s.ctr[f] + cwc[f]],
       reg |-> [f \in Regs |-> regres[f].r],
       del |-> s.del \/ kindc = "del",
